@@ -19,7 +19,7 @@ WRAP_MUTANTS = ["snakeIgnoresDigits", "noKeywordRule", "slotCollision", "unwrapC
 OWNERS = ["Patient", "HumanName", "String", "Contact"]
 XTYPES = ["Reference", "Identifier", "Coding", "Extension", "string", "dateTime"]
 MODEL_RES = ["MR1", "MR2", "MR3", "MR4", "C20_X1", "C20_X2", "C20_X3", "C20_X4", "C20_X5"]
-JUDGE_CHUNK = 15000
+JUDGE_CHUNK_BYTES = 16 << 20
 
 
 def random_behaviours(rng, n):
@@ -115,22 +115,23 @@ def run(ctx):
         raise D.Inconclusive("extension machine emitted only %d behaviours" % len(behaviours))
     for k, b in enumerate(behaviours):
         b["id"] = "beh/q%06d" % k
+        b["last_only"] = True
         b["owners"] = [OWNERS[k % len(OWNERS)]] if quick else [OWNERS[k % len(OWNERS)], OWNERS[(k + 2) % len(OWNERS)]]
     for m in (EXT_MUTANTS[:3] if quick else EXT_MUTANTS):
         D.mutant_twin(ctx, "C20_ExtMC", "C20_ext_mut_%s.cfg" % m, m, workers=1)
-    n_random = 0
+    rnd = random_behaviours(rng, 3000 if quick else 30000)
+    for k, b in enumerate(rnd):
+        b["id"] = "beh/r%06d" % k
+        b["owners"] = [OWNERS[k % len(OWNERS)]]
+    n_random = len(rnd)
+    behaviours += rnd
     if not quick:
         ext3 = D.model_check(ctx, "C20_ExtMC", "C20_ext_thorough.cfg", workers=1, tag="C20_ExtMC-thorough")
         for k, b in enumerate(ext3.records):
             b["id"] = "beh/t%06d" % k
+            b["last_only"] = True
             b["owners"] = [OWNERS[k % len(OWNERS)]]
         behaviours += ext3.records
-        rnd = random_behaviours(rng, 20000)
-        for k, b in enumerate(rnd):
-            b["id"] = "beh/r%06d" % k
-            b["owners"] = [OWNERS[k % len(OWNERS)]]
-        n_random = len(rnd)
-        behaviours += rnd
 
     # ---- role 1 + 2, part 2 and 3: wrapper and extraction cases over the generated schema
     mc = D.model_check(ctx, "C20_MC", "C20_mc.cfg")
@@ -143,7 +144,7 @@ def run(ctx):
     for m in (WRAP_MUTANTS[:2] if quick else WRAP_MUTANTS):
         D.mutant_twin(ctx, "C20_MC", "C20_mut_%s.cfg" % m, m)
     # seeded variants of the model resources (derived Go-side from the seed in `form`)
-    nvar = 6 if quick else 40
+    nvar = 6 if quick else 100
     for r in MODEL_RES:
         for s in sorted(ctx.seed * 100000 + x for x in rng.sample(range(100000), nvar)):
             for t in XTYPES:
@@ -173,8 +174,8 @@ def run(ctx):
     for o in obs:
         k = o["kind"]
         if k == "beh":
-            evaluations += len(o["steps"])
-            keys.append(("beh", o["owner"], tuple(s["step"]["op"] for s in o["steps"]), len(o["steps"][0]["pre"])))
+            evaluations += len(o["ops"])
+            keys.append(("beh", o["owner"], tuple(o["ops"]), len(o["steps"][-1]["pre"])))
         elif k == "res":
             evaluations += 18
             keys.append(("res", o["t"]))
@@ -210,12 +211,24 @@ def run(ctx):
 
 
 def judge_all(ctx, obs):
+    """TLC parses NDJSON at about 1 MB/s and keeps a chunk's records in memory: judge in chunks of ~16 MB."""
+    import json
     verdicts = []
-    trees = ctx.path("trees.json")
-    for n, start in enumerate(range(0, len(obs), JUDGE_CHUNK)):
-        part = ctx.path("obs-%03d.ndjson" % n)
-        D.write_ndjson(part, obs[start:start + JUDGE_CHUNK])
-        verdicts += D.judge(ctx, "C20_Judge", "C20_judge.cfg", part, params={"TreeFile": trees}, tag="judge-%03d" % n)
+    D.write_params(ctx, {"TreeFile": ctx.path("trees.json")}, name="C20Params")
+    chunks, cur, size = [], [], 0
+    for o in obs:
+        n = len(json.dumps(o, separators=(",", ":")))
+        if cur and size + n > JUDGE_CHUNK_BYTES:
+            chunks.append(cur)
+            cur, size = [], 0
+        cur.append(o)
+        size += n
+    if cur:
+        chunks.append(cur)
+    for n, part in enumerate(chunks):
+        path = ctx.path("obs-%03d.ndjson" % n)
+        D.write_ndjson(path, part)
+        verdicts += D.judge(ctx, "C20_Judge", "C20_judge.cfg", path, tag="judge-%03d" % n)
     return verdicts
 
 
@@ -261,7 +274,7 @@ def corrupt_probe(ctx, by_kind):
         v["id"] = "corrupt/%d" % k
     path = ctx.path("corrupt.ndjson")
     D.write_ndjson(path, victims + clean)
-    vs = D.judge(ctx, "C20_Judge", "C20_judge.cfg", path, params={"TreeFile": ctx.path("trees.json")}, tag="judge-corrupt")
+    vs = D.judge(ctx, "C20_Judge", "C20_judge.cfg", path, tag="judge-corrupt")
     rejected = {v["id"] for v in vs if not v["ok"]}
     want = {v["id"] for v in victims}
     known = D.load_known(ctx.prop)
